@@ -652,3 +652,82 @@ def photon3d_unit(u: Unit):
             node, hops = node.info["content_of"], hops + 1
         u.oblige(p, "photon3d.container_holds_the_cube_written", node is p.ex.cube, {"stored": str(got)}, CUBE_REPLAY)
     u.static("photon3d.cover", n_ok >= 1, td.qualname, f"{n_ok} round trips explored")
+
+
+# ---- the ASDF reader: Detector.from_asdf / backends.from_asdf --------------------------------------------------------------------------
+@unit("C18", "asdf.reader")
+def asdf_reader(u: Unit):
+    """Detector.from_asdf -> backends.from_asdf (a generator-based context manager) -> cls.from_dict: the mapping handed to from_dict
+    carries the file's OWN 'type', 'properties' and 'data' entries (same objects), version 1, and the cluster table rebuilt as
+    pandas.DataFrame(<the file's data/charge/frame entry>); a file without version / type, or with another version, is refused and
+    nothing is built. asdf.open(filename) is the boundary: a mapping with the entries the writer stored (unit asdf.writer)."""
+    fi = u.fn(f"{DET}detector.py::Detector.from_asdf")
+    u.fn("pyxel/backends/asdf.py::from_asdf")
+    dci = u.cls(f"{DET}ccd/ccd.py::CCD")
+    for case in ("ok", "no_version", "version_2", "no_type"):
+        cfg = Cfg("real")
+        boundary.install(cfg)
+
+        def from_dict(ex, args, kwargs, fr):
+            ex.hold["built_from"] = args[1] if len(args) > 1 else kwargs.get("dct")
+            return VOpaque("xr", ex.st.fresh_int("det"), {"label": "detector"})
+        for cq in (f"{DET}ccd/ccd.py::CCD.from_dict", f"{DET}detector.py::Detector.from_dict"):
+            cfg.contracts[cq] = Contract(cq, from_dict, "data.* / props.* round trips")
+
+        def asdf_open(ex, f, args, kwargs, fr):
+            ex.hold["opened"] = args[0] if args else kwargs.get("fd")
+            return VOpaque("asdf_file", None, {"tree": ex.hold["tree"]})
+        cfg.lib_overrides["asdf.open"] = asdf_open
+
+        def with_file(ex, cm, item, body, fr):
+            if item.optional_vars is not None:
+                ex.assign(item.optional_vars, cm.info["tree"], fr)
+            ex.exec_block(body, fr)
+        cfg.lib_overrides[("with", "asdf_file")] = with_file
+
+        def data_frame(ex, f, args, kwargs, fr):
+            return VOpaque("xr", ex.st.fresh_int("df"), {"label": "pandas.DataFrame()", "args": list(args)})
+        cfg.lib_overrides["pandas.DataFrame"] = data_frame
+
+        def setup(ex, case=case):
+            st = ex.st
+            h = ex.hold = {}
+            mk = lambda name: VOpaque("xr", st.fresh_int(name), {"label": name})
+            h["frame"] = mk("file.data.charge.frame")
+            h["charge"] = st.alloc(HDict([(VStr("array"), mk("file.data.charge.array")), (VStr("frame"), h["frame"])]))
+            h["data"] = st.alloc(HDict([(VStr("photon"), mk("file.data.photon")), (VStr("charge"), h["charge"]), (VStr("pixel"), mk("file.data.pixel"))]))
+            h["properties"] = mk("file.properties")
+            items = [(VStr("version"), VInt(2 if case == "version_2" else 1)), (VStr("type"), VStr("CCD")), (VStr("properties"), h["properties"]), (VStr("data"), h["data"])]
+            if case == "no_version":
+                items = items[1:]
+            if case == "no_type":
+                items = [it for it in items if it[0].v != "type"]
+            h["tree"] = st.alloc(HDict(items))
+            h["filename"] = VStr(z3.String("filename"))
+            return [VClass(dci)], {"filename": h["filename"]}
+        ps = u.paths(fi, setup, cfg, label=f"Detector.from_asdf[{case}]")
+        for p in ps:
+            h = p.ex.hold
+            if case != "ok":
+                want = {"no_version": "ValueError", "no_type": "ValueError", "version_2": "NotImplementedError"}[case]
+                u.oblige(p, f"asdf.reader.refuses[{case}]", p.kind == "raise" and p.exc_name() == want and "built_from" not in h, {"exc": p.exc_name()}, DATA_REPLAY)
+                continue
+            if p.kind != "return":
+                u.oblige(p, "asdf.reader.no_raise", False, {"exc": p.exc_name(), "msg": str(p.st.cell(p.value).fields.get("args"))[:200]}, DATA_REPLAY)
+                continue
+            d = p.ex.try_dict(h.get("built_from")) if h.get("built_from") is not None else None
+            got = {k.v: v for k, v in d} if d is not None else {}
+            # the data mapping may be the file's own or a copy of it: what counts is entry-wise identity
+            file_data = {k.v: v for k, v in p.ex.try_dict(h["data"])}
+            got_data = {k.v: v for k, v in (p.ex.try_dict(got.get("data")) or [])} if isinstance(got.get("data"), VRef) else {}
+            same_entries = set(got_data) == set(file_data) and all(got_data[k] is file_data[k] or (k == "charge" and isinstance(got_data[k], VRef)) for k in file_data)
+            ok = (h.get("opened") is h["filename"] and set(got) == {"version", "type", "properties", "data"} and isinstance(got["version"], VInt) and got["version"].v == 1
+                  and isinstance(got["type"], VStr) and got["type"].v == "CCD" and got["properties"] is h["properties"] and same_entries)
+            u.oblige(p, "asdf.reader.hands_over_the_files_own_entries", bool(ok), {"keys": str(sorted(got))}, DATA_REPLAY)
+            ch = p.ex.try_dict(got_data.get("charge")) if isinstance(got_data.get("charge"), VRef) else None
+            arr_now = dict((k.v, v) for k, v in ch).get("array") if ch is not None else None
+            u.oblige(p, "asdf.reader.charge_array_is_the_files", arr_now is dict((k.v, v) for k, v in p.ex.try_dict(h["charge"])).get("array") if ch is not None else False, {}, DATA_REPLAY)
+            fr_now = dict((k.v, v) for k, v in ch).get("frame") if ch is not None else None
+            okf = isinstance(fr_now, VOpaque) and fr_now.info.get("label") == "pandas.DataFrame()" and len(fr_now.info.get("args", [])) == 1 and fr_now.info["args"][0] is h["frame"]
+            u.oblige(p, "asdf.reader.cluster_table_rebuilt_from_the_files_table", bool(okf), {}, DATA_REPLAY)
+        u.cover(f"asdf.reader.cover[{case}]", ps, lambda p, case=case: p.kind == ("return" if case == "ok" else "raise"))
